@@ -17,7 +17,8 @@ import (
 // Schema is the random type shape; the Go type is built from it with reflect and the same shape is printed
 // as a Coq term of type Model.schema, so the two cannot drift.
 type Schema struct {
-	Kind   string // bool num i64 u64 str bytes barr u256 time struct slice arr map iface
+	Kind   string // bool num i64 u64 str bytes barr u256 time struct slice arr map iface barrx
+	RegKey string // barrx: field key in the registered type settings ("" = none: the default key "data")
 	NK     string // I8 I16 I32 U8 U16 U32
 	N      int    // barr / arr length
 	Ptr    bool   // struct behind a pointer
@@ -110,6 +111,11 @@ func (s *Schema) build() reflect.Type {
 		s.T = tBytes
 	case "barr":
 		s.T = reflect.ArrayOf(s.N, numT["U8"])
+	case "barrx": // [N]byte with registered object code and/or behind a pointer
+		s.T = reflect.ArrayOf(s.N, numT["U8"])
+		if s.Ptr {
+			s.T = reflect.PointerTo(s.T)
+		}
 	case "u256":
 		s.T = tBig
 	case "time":
@@ -174,6 +180,19 @@ func (s *Schema) register(api *serix.API, seen map[*Schema]bool) {
 		}
 		for _, f := range s.Fields {
 			f.S.register(api, seen)
+		}
+	case "barrx":
+		if s.Code >= 0 {
+			var code any = uint32(s.Code)
+			if s.CodeU8 {
+				code = uint8(s.Code)
+			}
+			ts := serix.TypeSettings{}.WithObjectType(code)
+			if s.RegKey != "" {
+				ts = ts.WithFieldKey(s.RegKey)
+			}
+			// all [N]byte of one case share the array type and hence the settings: a second registration is refused
+			_ = api.RegisterTypeSettings(reflect.New(reflect.ArrayOf(s.N, numT["U8"])).Elem().Interface(), ts)
 		}
 	case "slice", "arr":
 		s.Elem.register(api, seen)
@@ -242,6 +261,12 @@ func (s *Schema) coqCode(withCode bool) string {
 		return "SBytes"
 	case "barr":
 		return "(SByteArr " + vx.Nat(s.N) + ")"
+	case "barrx":
+		key := s.RegKey
+		if key == "" {
+			key = "data"
+		}
+		return s.coqBarrx(key)
 	case "u256":
 		return "SU256"
 	case "time":
@@ -263,6 +288,11 @@ func (s *Schema) coqCode(withCode bool) string {
 				// the field key is unused; the type settings (object code) of a plain embedded struct are not consulted
 				return `(""%string, FInline, ` + f.S.coqCode(f.Inline) + ")"
 			}
+			if f.S.Kind == "barrx" && !f.S.Ptr && f.S.Code >= 0 && f.TagKey != "" {
+				// a by-value array in a struct field: the field's type settings are merged over the registered ones, so
+				// an explicit tag key also becomes the key of the hex string inside the object
+				return "(" + coqStr(f.Key()) + ", " + m + ", " + f.S.coqBarrx(f.TagKey) + ")"
+			}
 			return "(" + coqStr(f.Key()) + ", " + m + ", " + f.S.coq() + ")"
 		})
 		if len(s.Fields) == 0 {
@@ -283,6 +313,14 @@ func (s *Schema) coqCode(withCode bool) string {
 		return "(SIface " + as + ")"
 	}
 	panic("kind")
+}
+
+func (s *Schema) coqBarrx(key string) string {
+	code := "None"
+	if s.Code >= 0 {
+		code = "(Some " + vx.N(uint64(s.Code)) + ")"
+	}
+	return "(SByteArrO " + vx.Bool(s.Ptr) + " " + vx.Nat(s.N) + " " + code + " " + coqStr(key) + ")"
 }
 
 func timeNanos(t time.Time) *big.Int {
@@ -333,6 +371,19 @@ func term(s *Schema, v reflect.Value) string {
 	case "barr":
 		b := make([]byte, s.N)
 		reflect.Copy(reflect.ValueOf(b), v)
+		return "(VStr " + coqStr(string(b)) + ")"
+	case "barrx":
+		if s.Ptr {
+			if v.IsNil() {
+				return "VNil"
+			}
+			v = v.Elem()
+		}
+		b := make([]byte, s.N)
+		reflect.Copy(reflect.ValueOf(b), v)
+		if s.Ptr {
+			return "(VPtr (VStr " + coqStr(string(b)) + "))"
+		}
 		return "(VStr " + coqStr(string(b)) + ")"
 	case "u256":
 		if v.IsNil() {
